@@ -207,12 +207,23 @@ def r1_standard(ctx):
                found=show(ep[0][1]) if ep else None, expected=show(exp_ep),
                why='a double pawn step sets the target to the skipped square, every other move clears it')
         lose = [a for m, a, u in calls if m == 'lose_castle_rights']
-        exp_l = ('bin', 'BitOr', ('call', STD_HELPERS[1], (mover_piece, mover_col, frm), None),
-                 ('call', STD_HELPERS[2], (Cap, to), None))
-        got = lose[0][1] if lose else None
-        okl = got == exp_l or (got is not None and got[0] == 'bin' and got[1] == 'BitOr' and {got[2], got[3]} == {exp_l[2], exp_l[3]})
-        ctx.ob(rule, name, tag + ': lost rights = moved(mover, from) | taken(removed(to), to)', okl,
-               found=show(got) if got else None, expected=show(exp_l),
+        want_terms = {('call', STD_HELPERS[1], (mover_piece, mover_col, frm), None), ('call', STD_HELPERS[2], (Cap, to), None)}
+
+        def leaves(x):
+            if x[0] == 'bin' and x[1] == 'BitOr':
+                return leaves(x[2]) | leaves(x[3])
+            return {x}
+        got_terms = set()
+        for a in lose:
+            got_terms |= leaves(a[1])
+        got_terms.discard(C(0))
+        # a term may be missing on a path that established it is 0 (conditional second call)
+        cond0 = {a for a, v in o.conds if v == 0}
+        missing = {x for x in want_terms - got_terms if x not in cond0}
+        extra = got_terms - want_terms
+        okl = bool(lose) and not missing and not extra
+        ctx.ob(rule, name, tag + ': rights lost (over all lose_castle_rights calls) = moved(mover, from) | taken(removed(to), to)', okl,
+               found=[show(a[1]) for a in lose], expected=sorted(show(x) for x in want_terms),
                why='rights are lost exactly when king/home rook moves or a home rook is captured')
     ctx.floor(rule, 'Ok paths of StandardChessMove::apply', len(oks), 2)
 
